@@ -8,6 +8,7 @@ mod report;
 mod sql;
 mod util;
 mod wire;
+mod wl;
 
 fn main() {
     let args: Vec<String> = std::env::args().collect();
